@@ -187,15 +187,13 @@ func NewDecryptReader(doc io.Reader, unwrap UnwrapFunc) (*DecryptReader, error) 
 	var lines [3][]byte
 	hl := 0
 	for i := range lines {
-		l, err := br.ReadSlice('\n')
+		// README.md puts no limit on the length of a header line: ReadBytes, not a bounded ReadSlice
+		l, err := br.ReadBytes('\n')
 		if err != nil {
 			return nil, fmt.Errorf("%w: header line %d: %v", ErrFormat, i+1, err)
 		}
 		hl += len(l)
-		if hl > SegmentSize {
-			return nil, fmt.Errorf("%w: header longer than a segment", ErrFormat)
-		}
-		lines[i] = append([]byte(nil), l[:len(l)-1]...)
+		lines[i] = l[:len(l)-1]
 	}
 	if string(lines[0]) != SchemeLine {
 		return nil, fmt.Errorf("%w: first line is %q", ErrFormat, lines[0])
